@@ -10,4 +10,13 @@ Next == \/ \E r \in Rounds : Serve(r)
         \/ Try \/ Tick \/ TipBetter \/ StopReq
         \/ \E res \in {"accept", "reject", "orphan"} : Submit(res)
 Spec == Init /\ [][Next]_M
+(* Liveness (SPECIFICATION FairSpec): with time, the slot loop and the submit wait weakly fair, and templates served
+   only while the horizon leaves room for all their slots, a search always ends (block solved, window over, stale or
+   stopped) and a solved block is always submitted. *)
+NextL == \/ \E r \in Rounds : M.now + W + 1 <= MaxNow /\ Serve(r)
+         \/ Try \/ Tick \/ TipBetter \/ StopReq
+         \/ \E res \in {"accept", "reject", "orphan"} : Submit(res)
+FairSpec == Init /\ [][NextL]_M /\ WF_M(Tick) /\ WF_M(Try) /\ WF_M(\E res \in {"accept", "reject", "orphan"} : Submit(res))
+SearchEnds == (M.pc = "search") ~> (M.pc # "search")
+SolvedIsSubmitted == (M.pc = "hold") ~> (M.pc = "idle" /\ M.last # None)
 =============================================================================
